@@ -196,27 +196,46 @@ def r7_shared_datagram_framer_is_stateless(ck, cx):
     import operator as _op
     OPS = {ast.Lt: _op.lt, ast.LtE: _op.le, ast.Gt: _op.gt, ast.GtE: _op.ge, ast.Eq: _op.eq, ast.NotEq: _op.ne}
 
+    def _len_of(v, frame):
+        """value of the 'len' entry of a whole-header value (dict display, or anything that folds to a dict), else None"""
+        if isinstance(v, ast.Dict):
+            for k_, v_ in zip(v.keys, v.values):
+                if isinstance(k_, ast.Constant) and k_.value == 'len' and isinstance(v_, ast.Constant):
+                    return v_.value
+            return None
+        if v is None or frame.func is None:
+            return None
+        folded = cx.ce.try_ev(v, frame.func.mod, frame.cls, default=None)
+        return folded.get('len') if isinstance(folded, dict) and isinstance(folded.get('len'), int) else None
+
     def track(fp):
         """-> (feasible under the invariant, value of header['len'] at the end or None if unknown)"""
         hl = 0
         for ev in fp.path.ev:
             if ev.kind == 'assign':
-                t = U(ev.a)
-                if t == 'self._header':
-                    v = ev.node.value
-                    hl = None
-                    if isinstance(v, ast.Dict):
-                        for k_, v_ in zip(v.keys, v.values):
-                            if isinstance(k_, ast.Constant) and k_.value == 'len' and isinstance(v_, ast.Constant):
-                                hl = v_.value
-                elif t.startswith('self._header'):
-                    hl = ev.node.value.value if t == "self._header['len']" and isinstance(ev.node.value, ast.Constant) else None
-                elif isinstance(ev.a, (ast.Tuple, ast.List)) and 'self._header' in t:
-                    hl = None
-            elif ev.kind == 'cond' and hl is not None and isinstance(ev.node, ast.Compare) and len(ev.node.ops) == 1 \
-                    and U(ev.node.left) == "self._header['len']" and isinstance(ev.node.comparators[0], ast.Constant) and type(ev.node.ops[0]) in OPS:
-                if OPS[type(ev.node.ops[0])](hl, ev.node.comparators[0].value) != ev.a:
-                    return False, hl
+                tg = getattr(ev, '_subt', None)
+                tg = tg if isinstance(tg, ast.AST) else ev.a
+                val = getattr(ev, '_sub', None)
+                val = val if isinstance(val, ast.AST) else ev.node.value
+                pairs = [(tg, val)]
+                if isinstance(tg, (ast.Tuple, ast.List)):
+                    pairs = list(zip(tg.elts, val.elts)) if isinstance(val, (ast.Tuple, ast.List)) and len(val.elts) == len(tg.elts) else [(x, None) for x in tg.elts]
+                for t_, v_ in pairs:
+                    t = U(t_)
+                    if t == 'self._header':
+                        hl = _len_of(v_, ev.frame)
+                    elif t == "self._header['len']":
+                        c_ = cx.ce.try_ev(v_, ev.frame.func.mod, ev.frame.cls, default=None) if (v_ is not None and ev.frame.func is not None) else None
+                        hl = c_ if isinstance(c_, int) and not isinstance(c_, bool) else None
+                    elif t.startswith('self._header') and not isinstance(getattr(t_, 'slice', None), ast.Constant):
+                        hl = None
+            elif ev.kind == 'cond' and hl is not None:
+                c = getattr(ev, '_sub', None)
+                c = c if isinstance(c, ast.AST) else ev.node
+                if isinstance(c, ast.Compare) and len(c.ops) == 1 and U(c.left) == "self._header['len']" and type(c.ops[0]) in OPS:
+                    rhs = cx.ce.try_ev(c.comparators[0], ev.frame.func.mod, ev.frame.cls, default=None) if ev.frame.func is not None else None
+                    if isinstance(rhs, int) and OPS[type(c.ops[0])](hl, rhs) != ev.a:
+                        return False, hl
         return True, hl
     tracked = {id(fp): track(fp) for fp in fps}
     inductive = all(hl == 0 for fp in fps for ok_, hl in [tracked[id(fp)]] if ok_ and not (fp.exit and fp.exit[0] == 'exc'))
